@@ -29,3 +29,68 @@ Fixpoint tree_size (n : node) : nat :=
   match n with NAnd a b | NOr a b => S (tree_size a + tree_size b) | _ => 1 end.
 Fixpoint leaf_count (n : node) : nat :=
   match n with NAnd a b | NOr a b => leaf_count a + leaf_count b | _ => 1 end.
+
+(* ---- the recursive-descent parser, counting calls (one tick per call of parseExpression / parseAnd / parseAtom) ---- *)
+Fixpoint p_expr_t (f : nat) (ts : list tok) {struct f} : res (node * list tok) * nat :=
+  match f with
+  | 0 => (Fuel, 0)
+  | S f' =>
+      match p_and_t f' ts with
+      | (Ok (lft, r), k) =>
+          match p_op OOr r with
+          | None => (Ok (lft, r), S k)
+          | Some r' =>
+              match r' with
+              | [] => (Err ESyntax, S k)
+              | _ => match p_expr_t f' r' with
+                     | (Ok (rgt, r''), k') => (Ok (NOr lft rgt, r''), S (k + k'))
+                     | (e, k') => (e, S (k + k'))
+                     end
+              end
+          end
+      | (e, k) => (e, S k)
+      end
+  end
+with p_and_t (f : nat) (ts : list tok) {struct f} : res (node * list tok) * nat :=
+  match f with
+  | 0 => (Fuel, 0)
+  | S f' =>
+      match p_atom_t f' ts with
+      | (Ok (lft, r), k) =>
+          match p_op OAnd r with
+          | None => (Ok (lft, r), S k)
+          | Some r' =>
+              match r' with
+              | [] => (Err ESyntax, S k)
+              | _ => match p_and_t f' r' with
+                     | (Ok (rgt, r''), k') => (Ok (NAnd lft rgt, r''), S (k + k'))
+                     | (e, k') => (e, S (k + k'))
+                     end
+              end
+          end
+      | (e, k) => (e, S k)
+      end
+  end
+with p_atom_t (f : nat) (ts : list tok) {struct f} : res (node * list tok) * nat :=
+  match f with
+  | 0 => (Fuel, 0)
+  | S f' =>
+      match p_op OLp ts with
+      | Some r =>
+          match p_expr_t f' r with
+          | (Ok (e, r'), k) => (match p_op ORp r' with Some r'' => Ok (e, r'') | None => Err ESyntax end, S k)
+          | (e, k) => (e, S k)
+          end
+      | None =>
+          (match p_ref ts with
+           | Ok (Some x) => Ok x
+           | Ok None =>
+               match p_lic ts with
+               | Ok (Some x) => Ok x
+               | Ok None => Err ESyntax
+               | Err e => Err e | Panic => Panic | Fuel => Fuel
+               end
+           | Err e => Err e | Panic => Panic | Fuel => Fuel
+           end, 1)
+      end
+  end.
